@@ -141,7 +141,10 @@ def render(desc, nodes, abs_prefix):
     for idx, name in enumerate(desc["order"]):
         c = desc["cmds"][name]; sp = c["_spell"]
         L.append("  %s:" % yq(name))
-        L.append("    tool: %s" % {"shell": "shell", "phony": "phony", "mkdir": "mkdir", "stale": "stale-file-removal"}[c["tool"]])
+        L.append("    tool: %s" % {"shell": "shell", "phony": "phony", "mkdir": "mkdir", "stale": "stale-file-removal", "symlink": "symlink"}[c["tool"]])
+        if c["tool"] == "symlink":
+            L.append("    inputs: " + ylist([R(n) for n in c["ins"]])); L.append("    outputs: " + ylist([R(n) for n in c["outs"]]))
+            L.append("    contents: " + yq(c["tag"])); continue
         if c["tool"] == "stale":
             L.append("    expectedOutputs: " + ylist([R(p) for p in c["expected"]]))
             if c["roots"]: L.append("    roots: " + ylist([R(p) for p in c["roots"]]))
